@@ -11,6 +11,7 @@ import ElfiVerif.Drive.C14
 import ElfiVerif.Drive.C03
 import ElfiVerif.Drive.C02
 import ElfiVerif.Drive.C16
+import ElfiVerif.Drive.C17
 
 /-!
 Line-protocol driver: one JSON request per line on stdin (`{"op": "<Cxx.name>", …}`), one JSON answer
@@ -26,7 +27,7 @@ def allHandlers : List (String × H) :=
   ElfiVerif.Drive.C18.handlers ++ ElfiVerif.Drive.C09.handlers ++
   ElfiVerif.Drive.C19.handlers ++ ElfiVerif.Drive.C14.handlers ++
   ElfiVerif.Drive.C03.handlers ++ ElfiVerif.Drive.C02.handlers ++
-  ElfiVerif.Drive.C16.handlers
+  ElfiVerif.Drive.C16.handlers ++ ElfiVerif.Drive.C17.handlers
 
 def handleLine (line : String) : String :=
   match Json.parse line with
